@@ -507,7 +507,9 @@ func (a *Authenticator) ClientHandshake(ctx context.Context) (*SecurityNegotiati
 
 	if serverAddr != "" && a.config.Command >= 0 {
 		cmdStr := fmt.Sprintf("%d", a.config.Command)
-		if entry, ok := cache.LookupByCommand(a.config.SecurityTag, serverAddr, cmdStr); ok {
+		// Only a session that carries a key can be resumed (the key is the proof of
+		// possession); a keyless cached session falls through to a full handshake.
+		if entry, ok := cache.LookupByCommand(a.config.SecurityTag, serverAddr, cmdStr); ok && entry.KeyInfo() != nil && len(entry.KeyInfo().Data) > 0 {
 			slog.Info(fmt.Sprintf("🔐 CLIENT: Found cached session %s for %s, attempting to resume...",
 				redactSessionID(entry.ID()), serverAddr), "destination", "cedar")
 
@@ -675,6 +677,11 @@ func (a *Authenticator) handleSessionResumption(ctx context.Context, sessionID s
 				entry, ok, cache = e, true, global
 			}
 		}
+	}
+	// Possession of the session key is the only proof a resuming peer offers, so a
+	// session stored without a key cannot be resumed: treat it as unknown.
+	if ok && (entry.KeyInfo() == nil || len(entry.KeyInfo().Data) == 0) {
+		ok = false
 	}
 	if !ok {
 		slog.Info(fmt.Sprintf("🔐 SERVER: Session %s not found or expired", redactSessionID(sessionID)), "destination", "cedar")
